@@ -461,9 +461,10 @@ func (p *G1Jac) JointScalarMultiplicationBase(a *G1Affine, s1, s2 *big.Int) *G1J
 	s[0] = s[0].SetBigInt(&k1).Bits()
 	s[1] = s[1].SetBigInt(&k2).Bits()
 
-	maxBit := k1.BitLen()
-	if k2.BitLen() > maxBit {
-		maxBit = k2.BitLen()
+	// bit lengths of the reduced scalars (the unreduced ones may exceed the limbs of s)
+	maxBit := s[0].BitLen()
+	if s[1].BitLen() > maxBit {
+		maxBit = s[1].BitLen()
 	}
 	hiWordIndex := (maxBit - 1) / 64
 
@@ -530,9 +531,10 @@ func (p *G1Jac) JointScalarMultiplication(p1, p2 *G1Jac, s1, s2 *big.Int) *G1Jac
 	s[0] = s[0].SetBigInt(&k1).Bits()
 	s[1] = s[1].SetBigInt(&k2).Bits()
 
-	maxBit := k1.BitLen()
-	if k2.BitLen() > maxBit {
-		maxBit = k2.BitLen()
+	// bit lengths of the reduced scalars (the unreduced ones may exceed the limbs of s)
+	maxBit := s[0].BitLen()
+	if s[1].BitLen() > maxBit {
+		maxBit = s[1].BitLen()
 	}
 	hiWordIndex := (maxBit - 1) / 64
 
